@@ -646,10 +646,9 @@ class CellsImpl(*_cells_impl_base):
         )
         Derivable.__init__(self, is_derived)
 
-        if add_to_space:
-            space._cells.set_item(name, self)
-
         # Set formula
+        # A malformed formula raises here, before the cells is added to
+        # the space, so that a rejected creation leaves the space unchanged.
         if base:
             self.formula = base.formula
         elif formula is None:
@@ -658,6 +657,9 @@ class CellsImpl(*_cells_impl_base):
             self.formula = formula.__class__(formula, name=name)
         else:
             self.formula = Formula(formula, name=name)
+
+        if add_to_space:
+            space._cells.set_item(name, self)
 
         if base:
             self.is_cached = base.is_cached
